@@ -117,7 +117,7 @@ func (c mutCase) readers() []string {
 	case "bed":
 		return []string{"bed3", "bed4", "bed5", "bed6", "bed12"}
 	}
-	return []string{"gff"}
+	return []string{"gff", "gff-no-time-format"}
 }
 
 func applyMuts(data []byte, muts []mut) []byte {
@@ -344,7 +344,7 @@ func genInvalid(t *rapid.T) invalidCase {
 			f.Recs = append(f.Recs, iogen.SeqRec{Name: "r", Pat: "acgt", Len: 4, QPat: []int{30}})
 		}
 		c.Seq = &f
-		c.Kind = rapid.SampledFrom([]string{"length-mismatch", "length-mismatch", "quality-interior-blank"}).Draw(t, "kind")
+		c.Kind = rapid.SampledFrom([]string{"length-mismatch", "length-mismatch", "quality-interior-blank", "no-sequence-line-after-a-mismatch"}).Draw(t, "kind")
 	}
 	return c
 }
@@ -432,6 +432,11 @@ func (c invalidCase) build() ([]byte, int) {
 				}
 				ls[3] = q
 				txt = strings.Join(ls, "\n") + "\n"
+				if c.Kind == "no-sequence-line-after-a-mismatch" {
+					// the next record has no sequence line at all and as many scores as the record that
+					// has just failed had letters: it is a mismatch of its own (0 letters)
+					txt += "@zz\n+\n" + strings.Repeat("I", max(len(ls[1]), 1)) + "\n"
+				}
 			}
 			b.WriteString(txt)
 		}
@@ -444,6 +449,9 @@ func (c invalidCase) readers() []string {
 	case "bed":
 		return []string{fmt.Sprintf("bed%d", c.Bed.N)}
 	case "gff":
+		if c.Kind == "incomplete-metaline" {
+			return []string{"gff", "gff-no-time-format", "gff-other-time-format"}
+		}
 		return []string{"gff"}
 	}
 	return []string{"fastq", "fastq-plain"}
@@ -460,6 +468,10 @@ func checkInvalid(c invalidCase) *vlib.Failure {
 		if !errAt(o, call) {
 			return vlib.Failf("invalid-line-accepted", "%s reader: %s at record %d was not reported as an error by call %d (errors at calls %v, %d calls, EOF=%v)\ninput: %.400q",
 				r, c.Kind, call, call, o.ErrAtCall, o.Calls, o.SawEOF, data)
+		}
+		if c.Kind == "no-sequence-line-after-a-mismatch" && !errAt(o, call+1) {
+			return vlib.Failf("invalid-line-accepted", "%s reader: the record without a sequence line that follows the failed record %d was not reported as an error by call %d (errors at calls %v, %d calls, EOF=%v)\ninput: %.400q",
+				r, call, call+1, o.ErrAtCall, o.Calls, o.SawEOF, data)
 		}
 	}
 	return nil
